@@ -462,8 +462,8 @@ func init() {
 				ids = append(ids, "3-3/est1/U3", "3e-3e/est2/U3", "3r-3r/est1/U3", "3e-3e/lost1/U3")
 			} else {
 				// sized to complete within the 25-minute budget (≈ 2 M states): sessions with history and OTRv2 first
-				ids = append(ids, "3-3/est1/U4", "3e-3e/est2/U4", "3r-3r/est1/U4", "3re-3re/est3/U4", "2e-2e/est2/U4", "2r-2/plain/U4", "3e-3e/lost1/U4", "3r-3/lost1/U4", "2e-2/lost1/U4")
-				for _, pa := range []string{"3", "3r", "3e", "3ws", "3rews"} {
+				ids = append(ids, "3-3/est1/U4", "3e-3e/est2/U4", "3r-3r/est1/U4", "3re-3re/est3/U4", "2e-2e/est2/U4", "2r-2/plain/U4", "3e-3e/lost1/U4", "3r-3/lost1/U4", "2e-2/lost1/U4", "3rews-3rews/plain/U4")
+				for _, pa := range []string{"3", "3r", "3e", "3ws"} {
 					for _, pb := range []string{"3", "3r", "3e", "3rews"} {
 						ids = append(ids, pa+"-"+pb+"/plain/U4")
 					}
